@@ -211,6 +211,13 @@ class Sym:
     def __hash__(self): return id(self)
 
 
+class CoroCall:
+    """an un-awaited call of an `async def` of the repository"""
+    def __init__(self, f, args, kwargs):
+        self.f = f; self.args = args; self.kwargs = kwargs
+    def __repr__(self): return f'<coroutine {self.f.__qualname__}{self.args}>'
+
+
 class Acc:
     """accumulator (bytes/str/list) = unknown prefix + known appended parts"""
     def __init__(self, name, parts=()):
@@ -308,6 +315,9 @@ class Interp:
         target = f; bound = ()
         if isinstance(f, types.MethodType):
             target = f.__func__; bound = (f.__self__,)
+        if inspect.iscoroutinefunction(target) and _in_repo(target):
+            # calling an `async def` only creates a coroutine; its body runs when awaited (e_Await -> on_await)
+            return CoroCall(target, tuple(bound) + tuple(args), dict(kwargs))
         while hasattr(target, '__wrapped__') and target not in self.inline:
             break
         if isinstance(target, types.FunctionType) and (target in self.inline or
